@@ -364,3 +364,30 @@ Definition plan_two_reads (dcf rackf : N -> option N) (g : ring N) (keyspaces : 
   | None => None
   end.
 
+(* the acceptor for one observed plan whose first target was taken under [en1 co1] and the rest
+   under [en2 co2] (kind L of the correspondence check).  [inserts h pre post]: the lists obtained
+   by putting h somewhere into post (after the reversed prefix pre).  The later plan's target for
+   the picked node carries a shard iff the node is then in a replica group (group < 3); the picked
+   target does iff it was picked from a replica group; Plan removes the later target only when
+   the two are equal. *)
+Fixpoint inserts (h : N) (pre post : list N) : list (list N) :=
+  (rev pre ++ h :: post) ::
+  match post with
+  | [] => []
+  | x :: r => inserts h (x :: pre) r
+  end.
+Definition two_reads_matches (dcf rackf : N -> option N) (g : ring N) (keyspaces : list (N * strategy))
+    (en1 co1 en2 co2 : N -> bool) (pol : policy) (rq : request) (p : list N) : bool :=
+  match p with
+  | [] => false
+  | h :: rest =>
+      let g1 := group_of dcf rackf g keyspaces en1 co1 pol rq h in
+      let g2 := group_of dcf rackf g keyspaces en2 co2 pol rq h in
+      let pm2 := plan_matches dcf rackf g keyspaces en2 co2 pol rq in
+      pick_matches dcf rackf g keyspaces en1 co1 pol rq (Some h) &&
+      (if (8 <=? g2)%nat then negb (mem h rest) && pm2 rest                       (* not allowed any more *)
+       else if Bool.eqb (g1 <? 3)%nat (g2 <? 3)%nat
+            then negb (mem h rest) && existsb pm2 (inserts h [] rest)             (* equal target: removed *)
+            else mem h rest && pm2 rest)                                          (* other annotation: kept *)
+  end.
+
